@@ -1,7 +1,7 @@
-\* edge emission, grid/cache focus: assembly (axial bounds) > block (hex pitch) (quick)
-CONSTANTS N = 2  Par = {"p", "q"}  NVal = 2  NGrid = 2  MaxDepth = 3  MaxLevel = 6
+\* edge emission, parameters focus: block > 2 components sharing definitions, all keep-sets (thorough)
+CONSTANTS N = 3  Par = {"p", "q"}  NVal = 2  NGrid = 2  MaxDepth = 2  MaxLevel = 4
           GridSlot = "stack"  PickleSerial = "fresh"
-CONSTANTS Keeps <- KeepsNone  Acts <- ActsGrid  Parent0 <- ParentE  Cls0 <- ClsE
+CONSTANTS Keeps <- KeepsFull  Acts <- ActsParams  Parent0 <- ParentA  Cls0 <- ClsA
           ParOf <- McParOf  GridCls <- McGridCls  MatCls <- McMatCls
 ACTION_CONSTRAINT Emit
 INIT Init
